@@ -10,6 +10,7 @@
      gc ROLL NAMES LENS              BGc                                                       -> step answer
      move NAME                       BMove                                                     -> step answer
      reopen ROLL ENTS                BReopen                                                   -> step answer
+     reopenlogs ROLL ENTS | ...      BReopenLogs (one group per log)                           -> step answer
      state                           -> S O=.. I=.. D=.. L=.. strs=a,b tree=a,b nfrag=n
      frags                           -> F frag;frag  (frag = edit|edit, edit = I O D L +a,b -c,d)
      verify K                        verify_frags over the first K fragments from acc 0, disk = every
@@ -105,7 +106,7 @@ let code_name = function
   | CMissing -> "missing" | CBadInfo -> "bad-info" | CNoContinue -> "no-continue" | CNoBalance -> "no-balance"
   | CBadAdded -> "bad-added" | CBadRmed -> "bad-rmed" | CBadL -> "bad-l" | CBadDiscard -> "bad-discard"
   | CBadOutput -> "bad-output" | CGcDiscard -> "gc-discard" | CDataLoss -> "data-loss"
-  | CDataConstruction -> "data-construction" | CGcLogic -> "gc-logic" | CNotFound -> "not-found"
+  | CDataConstruction -> "data-construction" | CGcLogic -> "gc-logic" | CNotFound -> "not-found" | CBadSst -> "bad-sst"
   | CDuplicate -> "duplicate" | CStoreBalance -> "store-balance" | CMemtable -> "memtable" | CTreeMani -> "tree-mani"
 
 let b x = if x then "1" else "0"
@@ -177,6 +178,15 @@ let () =
          | "gc" -> step (BGc (nm (w 1), lens (w 2), w 0 = "1"))
          | "move" -> step (BMove (state_of_hex (w 0)))
          | "reopen" -> step (BReopen (parse_entries (w 1), w 0 = "1"))
+         | "reopenlogs" ->
+           (* reopenlogs ROLL ENTS | ROLL ENTS | ...   one group per log, in the order of the log numbers *)
+           let groups = List.filter (fun g -> String.trim g <> "") (String.split_on_char '|' rest) in
+           let logs = List.map (fun g ->
+               match List.filter (fun x -> x <> "") (String.split_on_char ' ' (String.trim g)) with
+               | [r; es] -> (parse_entries es, r = "1")
+               | [r] -> ([], r = "1")
+               | _ -> failwith "bad log group") groups in
+           step (BReopenLogs logs)
          | "state" ->
            let m = !s.bman in
            Printf.printf "S O=%s I=%s D=%s L=%s strs=%s tree=%s nfrag=%d sum=%s\n" (hex_of_state m.mO) (hex_of_state m.mI) (hex_of_state m.mD)
